@@ -248,3 +248,13 @@ FACETS = [
     _facet("tri_xu", 200, 20000, cellkinds=("tri",), styles=("xu",)),
     _facet("multi_frame", 300, 20000, frames=(2, 4)),
 ]
+
+# coverage-guided shards (pbt/fuzz.py: atheris mutates the byte stream behind the same strategy, reader modules
+# instrumented for edge coverage, same round-trip oracle); runs = byte buffers tried
+FUZZ = {
+    "multi_frame": {"quick": 1200, "thorough": 60000},
+    "tri_xs": {"quick": 1200, "thorough": 40000},
+    "ortho_xs": {"quick": 1200, "thorough": 40000},
+    "ortho_x_xu": {"quick": 1200, "thorough": 40000},
+}
+
